@@ -55,6 +55,23 @@ def logu(rng, lo, hi):
 # configuration sampling (swarm style: everything varies per run)
 # ------------------------------------------------------------------------------------------------
 
+def magic_numbers(repo):
+    """Integer literals of gaftools/cli/realign.py (thresholds, buffer sizes, budgets) plus the usual
+    width limits: workload sizes, fault positions and stall lengths are placed around them, because a
+    defect that only shows beyond a constant is invisible to small random inputs."""
+    import ast
+
+    vals = {256}
+    try:
+        tree = ast.parse(open(os.path.join(repo, "gaftools", "cli", "realign.py")).read())
+        for node in ast.walk(tree):
+            if isinstance(node, ast.Constant) and type(node.value) is int and 16 <= node.value <= 10000:
+                vals.add(node.value)
+    except (OSError, SyntaxError):
+        pass
+    return sorted(vals)
+
+
 def gen_pipe(rng, want_small=False):
     if not want_small and rng.random() < 0.65:
         return dict(REAL_PIPE)
@@ -302,7 +319,19 @@ def run_chunk(job):
     rng = random.Random("chunk-%s" % cid)
     shipped = job.get("shipped_batch", False)
     big = job.get("big", False)
-    if shipped:
+    scale_m = None
+    if job.get("scale"):
+        magics = magic_numbers(repo)
+        scale_m = magics[chunk % len(magics)]
+        sc_cores = rng.choice([2, 3, 4, 6])
+        sc_variant = (chunk // len(magics)) % 2  # alternate deterministically between the two shapes
+        if sc_variant == 0:
+            # even with one worker of the round staying behind, more than `scale_m` results are pending
+            n_sc = -(-(scale_m + 2) * sc_cores // (sc_cores - 1)) + rng.choice([0, 1, 7])
+        else:
+            n_sc = scale_m + rng.choice([1, 3, scale_m // 2 + 1])
+        wl = workload.make_workload(wl_seed, n_records=n_sc)
+    elif shipped:
         wl = workload.make_workload(wl_seed, n_records=rng.choice([1000, 1003, 2000, 2007]))
     elif big:
         wl = workload.make_workload(wl_seed, n_records=rng.choice([130, 200, 256, 300, 401]))
@@ -316,7 +345,12 @@ def run_chunk(job):
     paths = workload.write_workload(wl, wdir, bgzf=bgzf)
     if bgzf:
         d["bgzf_workloads"] += 1
-    if shipped:
+    if scale_m is not None:
+        # one round must hold more than `scale_m` records
+        sc_batch = -(-(wl["n"]) // sc_cores) if (sc_variant == 0 or rng.random() < 0.5) else max(1, scale_m // rng.choice([1, 2, 4]))
+        shape = (sc_batch, sc_cores, 16)
+        nbatch = sc_batch
+    elif shipped:
         shape = (None, rng.choice([1, 2]), 16)
         nbatch = 1000
     elif big:
@@ -346,7 +380,7 @@ def run_chunk(job):
                  "key": "C11/single-core-%s" % v[0], "cfg": {"seed": "ref", "batch": shape[0], "cores": 1, "cpu_count": 16, "policy": {"name": "benign"}, "max_steps": 200000, "faults": []},
                  "wl": wl, "bgzf": bgzf, "decisions": ref.decisions}
             )
-    n_runs = 2 if shipped else (4 if big else job["runs"])
+    n_runs = 2 if (shipped or scale_m is not None) else (4 if big else job["runs"])
     plans = []
     if job.get("sweep"):
         # enumeration: every worker x every kill point of its batch x every fault kind, S schedules each
@@ -370,6 +404,24 @@ def run_chunk(job):
                 cfg["batch"] = None
                 cfg["max_steps"] = 600000
                 d["shipped_batch_runs"] += 1
+            elif scale_m is not None:
+                cfg = gen_config(prop, sub, run_id, wl["n"], shape)
+                cfg["max_steps"] = 150000 + 40 * wl["n"]
+                srng = random.Random("scale-%s" % run_id)
+                if prop == "C13":
+                    # a failure exactly at / next to the magic record number
+                    g = min(wl["n"] - 1, max(0, scale_m + srng.choice([-2, -1, -1, 0, 1])))
+                    cfg["faults"] = [{"kind": "raise", "victim": g // nbatch, "record": g % nbatch, "exc": srng.choice(["MemoryError", "MemoryError", "SystemExit"]), "code": 3}]
+                if j == 0:
+                    cfg["policy"] = gen_policy(random.Random("scale-pol-%s" % run_id), 100, 1, 4, 1)
+                    while cfg["policy"]["name"] != "weighted":
+                        cfg["policy"] = gen_policy(srng, 100, 1, 4, 1)
+                if cfg["policy"]["name"] == "weighted" and (j == 0 or srng.random() < 0.7):
+                    # a worker that stays behind for longer than the magic number of steps / time-outs
+                    cfg["policy"]["stalls"] = [{"label": "W0" if (j == 0 or srng.random() < 0.5) else "W%d" % srng.randrange(max(1, shape[1])),
+                                                "at": srng.choice([0, 1, 2]), "steps": (6 * wl["n"] + 1000) * srng.choice([1, 3]), "with_feeder": True}]
+                    cfg["policy"].pop("phase_len", None)
+                cfg["chaos_steps"] = max(cfg["chaos_steps"], 40 * scale_m)
             else:
                 cfg = gen_config(prop, sub, run_id, wl["n"], shape)
                 if job.get("fat"):
